@@ -30,7 +30,7 @@ def run(ctx):
         t, i = common.tlc(ctx, "ZnIso", cfg, workers=2, timeout=300, allow_violation=True)
         if not i["violated"]:
             raise common.NoVerdict("sensitivity: %s (process-wide singletons / shared source field) was NOT refuted by TLC" % cfg)
-    if len(seqs) != 1 + 11 + 121 + 1331 or len(scheds) != 6 or len(scheds3) != 90:
+    if len(seqs) != 1 + 12 + 144 + 1728 or len(scheds) != 6 or len(scheds3) != 90:
         raise common.NoVerdict("unexpected vector counts %d %d %d" % (len(seqs), len(scheds), len(scheds3)))
     # ---- sequential replay: every sequence, same interpreter and separate interpreters, each in a fresh process
     cases = []
@@ -58,7 +58,7 @@ def run(ctx):
         raise common.NoVerdict("pristine probe observation %s differs from the expected %s" % (got0, want))
     # vacuity guard: the polluters must do what the spec's Effect() says they do (run to completion; failDeep fails three calls
     # deep; redefLib is refused by the constructor guard)
-    expect_out = {"failDeep": "error", "redefLib": "error"}
+    expect_out = {"failDeep": "error", "redefLib": "error", "redefLibAlias": "error"}
     for r in res:
         c = cases[r["id"]]
         outs = r.get("polluters") or []
@@ -127,8 +127,8 @@ def run(ctx):
         common.report(ctx, "race:data-race", "Go race detector reported %d data races during the concurrent replay: %s" % (nrace, sites), dict(stderr=p.stderr[-3000:]))
     cov = dict(traces_validated_against_impl=len(cases) + len(ccases), samples=[dict(sequence=seqs[57]["seq"]), dict(schedule=scheds[3]["s"])],
                evaluations=len(cases) + len(ccases), distinct_nontrivial=len(seqs) + len(scheds) + len(scheds3),
-               rule="sequential: all 1464 sequences P1;..;Pn (n<=3; quick: all of n<=2 and a seeded 40 percent of n=3) over 11 polluters (mutate 数值 in place, redefine the constructor of 异常, redefine a "
-                    "library type's constructor, mutate a library type's dictionary default through an instance, write into the headers a response constructor supplied, fail three calls "
+               rule="sequential: all 1885 sequences P1;..;Pn (n<=3; quick: all of n<=2 and a seeded 40 percent of n=3) over 12 polluters (mutate 数值 in place, redefine the constructor of 异常, redefine a "
+                    "library type's constructor - by its name and through a variable that holds the type -, mutate a library type's dictionary default through an instance, write into the headers a response constructor supplied, fail three calls "
                     "deep, declare names/methods/types, import libraries, run a FILE that imports a custom module file, a request whose INPUT-VARIABLE TEXT mutates 数值, names declared inside the body of a redefined constructor of 异常), preceded by an execution that FAILS three calls deep and whose error is rendered only at the very end (it must still describe its own execution), each on ONE interpreter "
                     "object and on separate ones, each in a fresh process, followed by a probe that observes every cell: the observation must equal the probe's in a "
                     "pristine process. static: the go/types inventory of package-level variables must equal the classified GLOBALS table of the spec. concurrent: all 6 interleavings of bind-source/read-source of 2 requests (x%d) and %d of the 90 of 3 requests through one "
